@@ -181,8 +181,10 @@ def robust_numeric(e):
         if not v.is_number or v.free_symbols:
             raise NumericallyUnstable("not a number")
         if prev is not None:
-            d = abs(complex(sympy.N(v - prev, 30)))
-            if d <= 1e-60 * max(1.0, abs(complex(sympy.N(v, 30)))):
+            # compared in sympy arithmetic: Python floats overflow to inf beyond 1e308 and "inf <= inf" would accept two garbage values
+            d = sympy.Abs(sympy.N(v - prev, 50))
+            scale = sympy.Max(1, sympy.Abs(sympy.N(v, 50)))
+            if bool(d <= sympy.Float("1e-60") * scale):
                 return sympy.N(v, 70)
         prev = v
     raise NumericallyUnstable("evalf did not stabilise")
@@ -203,9 +205,9 @@ def values_equal(polar_val, ref, tol_digits=40):
         rv = sympy.Float(mpmath.nstr(mpmath.re(ref), 50), 60) + sympy.I * sympy.Float(mpmath.nstr(mpmath.im(ref), 50), 60)
     else:
         rv = sympy.Float(str(ref), 60)
-    diff = sympy.N(pv - rv, 60)
-    scale = max(1, abs(float(sympy.N(rv, 20))))
-    return abs(complex(diff)) <= 10.0 ** (-tol_digits) * scale
+    diff = sympy.Abs(sympy.N(pv - rv, 60))
+    scale = sympy.Max(1, sympy.Abs(sympy.N(rv, 20)))
+    return bool(diff <= sympy.Float(10) ** (-tol_digits) * scale)
 
 
 def max_special_case(expr):
